@@ -2358,7 +2358,8 @@ func ReadChars(env envs.Environment, val *types.XText) types.XValue {
 	// remove any leading +
 	val = types.NewXText(strings.TrimLeft(val.Native(), "+"))
 
-	length := val.Length()
+	runes := []rune(val.Native())
+	length := len(runes)
 
 	// groups of three
 	if length%3 == 0 {
@@ -2367,7 +2368,7 @@ func ReadChars(env envs.Environment, val *types.XText) types.XValue {
 			if i > 0 {
 				output.WriteString(" , ")
 			}
-			output.WriteString(strings.Join(strings.Split(val.Native()[i:i+3], ""), " "))
+			output.WriteString(strings.Join(strings.Split(string(runes[i:i+3]), ""), " "))
 		}
 		return types.NewXText(output.String())
 	}
@@ -2378,7 +2379,7 @@ func ReadChars(env envs.Environment, val *types.XText) types.XValue {
 			if i > 0 {
 				output.WriteString(" , ")
 			}
-			output.WriteString(strings.Join(strings.Split(val.Native()[i:i+4], ""), " "))
+			output.WriteString(strings.Join(strings.Split(string(runes[i:i+4]), ""), " "))
 		}
 		return types.NewXText(output.String())
 	}
